@@ -339,7 +339,9 @@ func (segstore *SegStore) GetBaseDir() string {
 
 // For some types we use a bloom index and for others we use range indices. If
 // a column has both, we should convert all the values to one type.
-func consolidateColumnTypes(wipBlock *WipBlock, segmentKey string) error {
+// Returns the names of the columns that were converted.
+func consolidateColumnTypes(wipBlock *WipBlock, segmentKey string) ([]string, error) {
+	convertedCols := make([]string, 0)
 	for colName := range wipBlock.columnsInBlock {
 		// Check if this column has both a bloom and a range index.
 		_, ok1 := wipBlock.columnBlooms[colName]
@@ -353,18 +355,19 @@ func consolidateColumnTypes(wipBlock *WipBlock, segmentKey string) error {
 		ok, err := convertColumnToNumbers(wipBlock, colName, segmentKey)
 		if err != nil {
 			log.Errorf("consolidateColumnTypes: error converting column %v to numbers; err=%v", colName, err)
-			return err
+			return convertedCols, err
 		}
 		if !ok {
 			err = convertColumnToStrings(wipBlock, colName, segmentKey)
 			if err != nil {
 				log.Errorf("consolidateColumnTypes: error converting column %v to strings; err=%v", colName, err)
-				return err
+				return convertedCols, err
 			}
 		}
+		convertedCols = append(convertedCols, colName)
 	}
 
-	return nil
+	return convertedCols, nil
 }
 
 // Returns true if the conversion succeeds.
@@ -530,10 +533,15 @@ func (segstore *SegStore) AppendWipToSegfile(streamid string, forceRotate bool, 
 	// If there's columns that had both strings and numbers in them, we need to
 	// try converting them all to numbers, but if that doesn't work we'll
 	// convert them all to strings.
-	err := consolidateColumnTypes(&segstore.wipBlock, segstore.SegmentKey)
+	convertedCols, err := consolidateColumnTypes(&segstore.wipBlock, segstore.SegmentKey)
 	if err != nil {
 		log.Errorf("AppendWipToSegfile: error consolidating column types; err=%v", err)
 		return err
+	}
+	// The re-encoded values no longer have the sizes recorded while ingesting, so readers must
+	// not assume a consistent record length for these columns.
+	for _, colName := range convertedCols {
+		segstore.AllSeenColumnSizes[colName] = sutils.INCONSISTENT_CVAL_SIZE
 	}
 
 	if segstore.wipBlock.maxIdx > 0 {
